@@ -39,7 +39,7 @@ REGISTRY = dict(
 
 TIERS = {
     "quick": dict(ext_gaps=False, mc_docs=3, mc_budget=0, sim=400, simdepth=400, bytepass_docs=6, mut_stride=1, scale_reps=2, gap1_docs=None),
-    "thorough": dict(ext_gaps=True, mc_docs=4, mc_budget=2, sim=12000, simdepth=900, bytepass_docs=None, mut_stride=1, scale_reps=3, gap1_docs=None),
+    "thorough": dict(ext_gaps=True, mc_docs=4, mc_budget=2, sim=6000, simdepth=900, bytepass_docs=None, mut_stride=1, scale_reps=3, gap1_docs=None),
 }
 
 GEN_CFG = """INIT GInit
@@ -97,11 +97,11 @@ def parse_lines(res):
     return gaps, docs, cases
 
 
-def run_parse(ctx, harness, reqs, tag, timeout=1800):
+def run_parse(ctx, harness, reqs, tag, timeout=1800, env=None):
     inp = ctx.path("parse-%s.in.ndjson" % tag)
     outp = ctx.path("parse-%s.out.ndjson" % tag)
     vlib.write_ndjson(inp, reqs)
-    p = ctx.run([harness, "parse", inp, outp], timeout=timeout, check=False)
+    p = ctx.run([harness, "parse", inp, outp], timeout=timeout, check=False, env=env)
     if p.returncode != 0:
         return None, p
     res = vlib.read_ndjson(outp)
@@ -205,6 +205,7 @@ def handwritten_docs():
 # ------------------------------------------------------------------ the check
 def run(ctx, args):
     harness = inproc(ctx)
+    ctx.harness_bin = harness
     if args.replay:
         return replay(ctx, harness, args.replay)
     T = TIERS[ctx.tier]
@@ -399,9 +400,8 @@ def run(ctx, args):
         brief = {k2: c[k2] for k2 in ("fam", "i", "e", "j", "e2")}
         variant = tab.var[c["i"] - 1][c["e"] - 1] if c["fam"] == "num" else ""
         if o.get("panic") or o.get("timeout"):
-            ctx.violation({"check": "C03.total", "what": "panic" if o.get("panic") else "timeout", "doc": name},
-                          {"kind": "total", "b64": b64(text)}, {"panic": o.get("panic"), "timeout": o.get("timeout")},
-                          "an AST or an error", "parser %s on a grammatical document" % ("panicked" if o.get("panic") else "timed out"))
+            judge_total(ctx, o, {"kind": "total", "b64": b64(text)}, "grammatical document %s %s" % (name, brief),
+                        {"check": "C03.total", "doc": name})
             continue
         # (a) fidelity of this hash class
         po = proj[(d, o.get("h"))]
@@ -486,12 +486,11 @@ def run(ctx, args):
             nbyte += o["n"]
             ctx.count(o["n"], "bytepass doc=%s" % tabs[d].name)
             for b in o["bad"]:
+                if b["what"] == "timeout" and not confirm_slow(ctx, {"b64": b["b64"]})[0]:
+                    continue
                 ctx.violation({"check": "C03.total", "family": "bytepass", "what": b["what"]},
                               {"kind": "total", "b64": b["b64"]}, b, "an AST or an error",
                               "byte-level neighbour of %s: %s (%s at %d)" % (tabs[d].name, b["what"], b["kind"], b["off"]))
-            if o["max_ns"] > TIME_LIMIT_MS * 1e6:
-                ctx.violation({"check": "C03.total", "family": "bytepass", "what": "slow"}, {"kind": "total", "doc": tabs[d].name, "b64": b64(t)},
-                              {"max_ns": o["max_ns"]}, "< 20 s", "byte-level neighbour took too long")
 
     # ---- 8. totality: depth-scaled family, 3 sizes up to 64 KiB; sequential timing
     sizes = [16384, 32768, 65536]
@@ -521,9 +520,9 @@ def run(ctx, args):
             if t[2] >= 500e6 and t[1] > 0 and t[0] > 0 and t[2] / t[1] > 3.0 and t[1] / t[0] > 3.0:
                 again = []
                 for s2 in sizes:
-                    r3, _ = run_parse(ctx, harness, [{"id": k, "b64": b64(fam[s2][k][:65536]), "limit_ms": TIME_LIMIT_MS, "reps": 5}],
-                                      "rescale", timeout=600)
-                    again.append(r3[0]["ns"] if r3 else 0)
+                    r3, _ = run_parse(ctx, harness, [{"id": k, "b64": b64(fam[s2][k][:65536]), "limit_ms": 6 * TIME_LIMIT_MS, "cpu": True}],
+                                      "rescale", timeout=600, env={"VERIF_WORKERS": "1", "GOMAXPROCS": "2"})
+                    again.append(r3[0]["cpu_ns"] if r3 else 0)       # CPU time of a single-threaded process: robust against load
                 t = again
                 growth[k] = [round(x / 1e6, 2) for x in t]
             if t[2] >= 500e6 and t[1] > 0 and t[0] > 0 and t[2] / t[1] > 3.0 and t[1] / t[0] > 3.0:
@@ -578,11 +577,30 @@ def generalize(d):
     return re.sub(r"\[\d+\]", "", path).strip(".")
 
 
+def confirm_slow(ctx, case):
+    """a document that exceeded the wall-clock bound is parsed once more, alone in a fresh single-threaded process; it counts
+    as too slow only if it needs more than the bound in CPU time as well (wall time alone says little on a loaded machine)"""
+    if not case.get("b64"):
+        return True, {}
+    res, p = run_parse(ctx, ctx.harness_bin, [{"id": "confirm", "b64": case["b64"], "limit_ms": 6 * TIME_LIMIT_MS, "cpu": True}],
+                       "confirm", timeout=600, env={"VERIF_WORKERS": "1", "GOMAXPROCS": "2"})
+    if res is None:
+        return True, {"crash": p.stderr[-500:]}
+    o = res[0]
+    slow = bool(o.get("timeout")) or o.get("cpu_ns", 0) > TIME_LIMIT_MS * 1e6
+    return slow, {"confirm_ns": o.get("ns"), "confirm_cpu_ns": o.get("cpu_ns"), "confirm_timeout": o.get("timeout")}
+
+
 def judge_total(ctx, o, case, what, cls):
     if o.get("panic"):
         ctx.violation(dict(cls, what="panic"), case, {"panic": o["panic"]}, "an AST or an error", "parser panicked on %s" % what)
     elif o.get("timeout") or o.get("ns", 0) > TIME_LIMIT_MS * 1e6:
-        ctx.violation(dict(cls, what="timeout"), case, {"ns": o.get("ns")}, "an answer within 20 s", "parser too slow on %s" % what)
+        slow, info = confirm_slow(ctx, case)
+        if slow:
+            ctx.violation(dict(cls, what="timeout"), case, dict(info, ns=o.get("ns")), "an answer within 20 s (CPU time)",
+                          "parser too slow on %s" % what)
+        else:
+            ctx.notes.append("wall-clock bound exceeded but not confirmed in CPU time (machine load): %s %s" % (what, info))
 
 
 def crash_hunt(ctx, harness, named_texts, p):
